@@ -286,6 +286,7 @@ func c19aRun(c *Ctx, r *zsimrt.Run) {
 
 func c19aExec(c *Ctx, sc *c19aScenario) {
 	out := runFanout(workerT, sc, false)
+	c.Trace(out.Digest + strings.Join(out.Events, ",") + strings.Join(out.Problems, ";"))
 	c.Count("fanouts", 1)
 	c.Count("sched-steps", out.Steps)
 	c.Max("sched-steps-per-run", out.Steps)
